@@ -854,9 +854,9 @@ func TestC18ZeroRead(t *testing.T) {
 								return fmt.Sprintf("Read into an empty buffer after the deadline returned %v", r.err)
 							}
 						}
-					case <-time.After(3 * time.Second):
+					case <-time.After(20 * time.Second): // (real time: generous, the machine may be busy)
 						lc.C.CloseNow() // lets the spinning call end
-						return fmt.Sprintf("Read into an empty buffer (%s) did not return within 3 s", when)
+						return fmt.Sprintf("Read into an empty buffer (%s) did not return within 20 s", when)
 					}
 					// and it consumed nothing: the rest of the stream is still there
 					if when == "mid-message" {
